@@ -151,8 +151,8 @@ def pure_delay_shifts_without_wrapping():
     assume(And(k >= 0, k <= n))
     s.filter_frequencies(delay_response(k, t[1] - t[0]))
     j = fresh_index("j", n)
-    prove("later-samples-are-the-delayed-signal", implies(j >= k, eq(s.values[j], a[j - k])))
-    prove("vacated-samples-are-zero-not-wrapped", implies(j < k, eq(s.values[j], 0)))
+    prove("later-samples-are-the-delayed-signal", implies(j >= k, eq(s.values[j], a[j - k], scale=1)))
+    prove("vacated-samples-are-zero-not-wrapped", implies(j < k, eq(s.values[j], 0, scale=1)))
 
 
 @harness(clause="force-real")
@@ -240,5 +240,5 @@ def function_signal_delay_does_not_wrap():
     assume(And(k >= 0, k <= len(a)))
     d = fs._apply_filters(a, [(delay_response(k, t[1] - t[0]), False)])
     j = fresh_index("j", len(a))
-    prove("later-samples-are-the-delayed-signal", implies(j >= k, eq(d[j], a[j - k])))
-    prove("vacated-samples-are-zero-not-wrapped", implies(j < k, eq(d[j], 0)))
+    prove("later-samples-are-the-delayed-signal", implies(j >= k, eq(d[j], a[j - k], scale=1)))
+    prove("vacated-samples-are-zero-not-wrapped", implies(j < k, eq(d[j], 0, scale=1)))
